@@ -96,14 +96,26 @@ structure Cfg where
   eff : EffKind := .none
   /-- the fetcher reads the sources through one memo `sm = Memo(all sources)` instead of directly -/
   viaMemo : Bool := false
+  /-- a `leptos_server::Resource`: the memo is `(refetch counter, sources)`, the fetcher reads it untracked,
+  `refetch()` bumps the counter (implies `viaMemo`) -/
+  res : Bool := false
+  /-- a `leptos_server::OnceResource`: one future, no sources, no refetch, no manual write -/
+  once : Bool := false
   deriving Repr, DecidableEq, Inhabited
 
-/-- an awaiter task: `spawn_local(async move { let v = d.await; record(v) })` -/
+/-- what a spawned task other than the derived's and the effect's does -/
+inductive AwKind where
+  | awaiter   -- `spawn_local(async move { let v = d.await; record(v) })`
+  | reader    -- spawned by a synchronous read under a `SuspenseContext`: `ready().await; drop(handle)`
+  deriving Repr, DecidableEq, Inhabited
+
+/-- a task waiting for the derived to be ready -/
 structure Aw where
   woken : Bool := true
   parked : Bool := false
   done : Bool := false
   result : Option Val := none
+  kind : AwKind := .awaiter
   deriving Repr, DecidableEq, Inhabited
 
 structure State where
@@ -128,6 +140,16 @@ structure State where
   viaMemo : Bool := false
   smDirty : Bool := false
   smVal : List Val := []
+  -- `Resource`: the refetch counter signal and the counter cached in the memo's value
+  res : Bool := false
+  rc : Nat := 0
+  smRc : Nat := 0
+  once : Bool := false
+  -- the stand-in `<Suspense/>` boundary: `tasks.len()`, contexts registered in `inner.suspenses`,
+  -- task ids the loop holds for the fetch in flight
+  pending : Nat := 0
+  susp : Nat := 0
+  idsHeld : Nat := 0
   -- memo `m`
   mstate : MState := .dirty
   mval : Option Val := none
@@ -149,6 +171,12 @@ structure State where
   lastManual : Option Val := none
   notifs : Nat := 0
   panicked : Bool := false
+  /-- the boundary has read since the loop last took the registered contexts -/
+  readSince : Bool := false
+  /-- the boundary had read before the loop took the contexts for the fetch in flight -/
+  coveredCur : Bool := false
+  /-- a manual write happened since the fetch in flight started -/
+  msetDuring : Bool := false
   deriving Repr, DecidableEq, Inhabited
 
 inductive Event where
@@ -159,6 +187,7 @@ inductive Event where
   | attach
   | poll (j : Nat)
   | get
+  | bread     -- the boundary reads the value synchronously (`get_untracked()` under its owner)
   deriving Repr, DecidableEq, Inhabited
 
 /-- the fetcher: a pure function of the inputs it captured -/
@@ -180,7 +209,8 @@ def hasEffect (k : EffKind) : Bool := match k with | .none => false | _ => true
 def hasMemo (k : EffKind) : Bool := match k with | .dm => true | .md => true | _ => false
 
 def init (c : Cfg) : State :=
-  { eff := c.eff, src := c.srcs, value := c.init, curInputs := c.srcs, viaMemo := c.viaMemo, smVal := c.srcs,
+  { eff := c.eff, src := c.srcs, value := c.init, curInputs := c.srcs, viaMemo := c.viaMemo || c.res,
+    smVal := c.srcs, res := c.res, once := c.once,
     eDirty := hasEffect c.eff, eChan := hasEffect c.eff, eWoken := hasEffect c.eff }
 
 /-! ## channels and marks -/
@@ -233,6 +263,8 @@ def notifySubs (s : State) : State :=
 
 /-- `fut.await` returned `fetchFn curInputs` (pc = fetching, curStatus = ready) -/
 def applyResult (s : State) : State :=
+  -- `drop(suspense_ids)`
+  let s := { s with pending := s.pending - s.idsHeld, idsHeld := 0 }
   let s := { s with curStatus := .done, pc := .waiting }
   if s.version = s.fetchVersion then
     notifySubs { s with value := some (fetchFn s.curInputs), manualLive := false }
@@ -242,7 +274,9 @@ def applyResult (s : State) : State :=
 derived's task or by the fetcher's `sm.get()`): recompute if `Dirty`; the derived, being the current
 observer, is not marked.  The flag says whether the value changed. -/
 def smUpdate (s : State) : State × Bool :=
-  if s.smDirty then ({ s with smVal := s.src, smDirty := false }, decide (s.smVal ≠ s.src)) else (s, false)
+  if s.smDirty then
+    ({ s with smVal := s.src, smRc := s.rc, smDirty := false }, decide (s.smVal ≠ s.src ∨ s.smRc ≠ s.rc))
+  else (s, false)
 
 /-- `fut = initial_fut.take().unwrap_or_else(new future)` (a new future reads the sources now);
 `loading = true`; `version += 1`; reach `fut.await` -/
@@ -252,6 +286,9 @@ def startFetch (s : State) : State :=
              let s := (smUpdate s).1
              { s with nf := s.nf + 1, curInputs := inputsNow s, curStatus := .pending }
   let s := { s with firstRun := false, loading := true, version := s.version + 1 }
+  -- `suspense_ids = mem::take(&mut guard.suspenses).map(|sc| sc.task_id())`
+  let s := { s with idsHeld := s.susp, pending := s.pending + s.susp, susp := 0,
+                    coveredCur := s.readSince, readSince := false, msetDuring := false }
   { s with fetchVersion := s.version, pc := .fetching }
 
 /-- `ArcAsyncDerivedInner::needs_rerun`, the task's own question "do I have to run again?":
@@ -356,9 +393,26 @@ def pollAw (loading : Bool) (value : Option Val) (a : Aw) : Aw :=
   if loading then { a with woken := false, parked := true }
   else { a with woken := false, done := true, result := value }
 
+/-- a reader task that resolves drops its handle: one task less in the boundary's list -/
+def handleDrop (loading : Bool) (a : Option Aw) : Nat :=
+  match a with
+  | some a => if a.kind = .reader ∧ a.done = false ∧ loading = false then 1 else 0
+  | none => 0
+
 def pollA (s : State) (i : Nat) : State :=
   { s with aws := modifyAt (pollAw s.loading s.value) s.aws i,
+           pending := s.pending - handleDrop s.loading s.aws[i]?,
            panicked := s.panicked || (!s.loading && s.value.isNone) }
+
+/-- `try_read_untracked` under a `SuspenseContext`: a task handle of its own plus a spawned
+`ready().await; drop(handle)`, and the context is registered for the next run of the loop
+(`OnceResource`: only while there is no value, and nothing takes the registrations) -/
+def bread (s : State) : State :=
+  if s.once then
+    if s.value = none then { s with pending := s.pending + 1, aws := s.aws ++ [{ kind := .reader }] } else s
+  else
+    { s with pending := s.pending + 1, aws := s.aws ++ [{ kind := .reader }], susp := s.susp + 1,
+             readSince := true }
 
 /-! ## executor -/
 
@@ -389,16 +443,22 @@ def complete (s : State) (f : Nat) : State :=
   else s
 
 def manualSet (s : State) (v : Val) : State :=
-  notifySubs { s with value := some v, manualLive := true, lastManual := some v }
+  notifySubs { s with value := some v, manualLive := true, lastManual := some v, msetDuring := true }
+
+/-- `refetch`: on a `Resource` the counter signal is bumped (the memo is marked, the derived asked to check);
+on a plain derived `d.mark_dirty()` -/
+def refetch (s : State) : State :=
+  if s.res then smMarkDirty { s with rc := s.rc + 1 } else dMarkDirty s
 
 def step (s : State) : Event → State
   | .set i v => setSrc s i v
-  | .refetch => dMarkDirty s
+  | .refetch => refetch s
   | .manualSet v => manualSet s v
   | .complete f => complete s f
   | .attach => { s with aws := s.aws ++ [{}] }
   | .poll j => pollNth s j
   | .get => s
+  | .bread => bread s
 
 def run (c : Cfg) (es : List Event) : State := es.foldl step (init c)
 
@@ -419,8 +479,14 @@ def lastSeen (s : State) : Option (Option Val) := s.eLog.getLast?.map (·.1)
 
 def awsResumed (s : State) : Bool := s.aws.all fun a => a.done && a.result.isSome
 
+/-- the boundary has read from the load in flight (and no manual write interfered) -/
+def suspCovered (s : State) : Bool :=
+  decide (s.pc = .fetching) && !s.msetDuring && (s.coveredCur || s.readSince)
+
 def oracle (s : State) : Option String :=
   if s.panicked then some "panic"
+  else if (readyList s).isEmpty && suspCovered s && s.pending == 0 then some "suspense-missed"
+  else if (readyList s).isEmpty && s.pc != .fetching && s.pending != 0 then some "suspense-stuck"
   else if !settled s then none
   else if s.loading then some "loading-stuck"
   else if s.value ≠ expected s then some (if s.stolen then "dirty-stolen" else "stale")
